@@ -570,16 +570,14 @@ class Ctx:
         self.solver.push()
         self.solver.add(cond)
         # feasibility has a 2 s soft budget; the watchdog enforces it (an interrupted query counts as feasible)
-        import threading
-        t = threading.Timer(8.0, self.solver.ctx.interrupt)
-        t.daemon = True
-        t.start()
+        from .verify import WATCHDOG
+        WATCHDOG.arm(self.solver.ctx, 8.0)
         try:
             r = self.solver.check()
         except z3.Z3Exception:
             r = z3.unknown
         finally:
-            t.cancel()
+            WATCHDOG.disarm()
         self.solver.pop()
         return r != z3.unsat
 
